@@ -4,9 +4,52 @@ import numpy as np
 from .util import unfrac
 
 
+def replay_first_row():
+    """first reported row = initial condition with the assignment rules applied (at the initial time and the run's volume), every mode"""
+    import itertools
+    from bioscrape.types import Model, Volume
+    from bioscrape.simulator import py_simulate_model
+    from bioscrape.random import py_seed_random
+    problems = []
+    for t0 in (0.0,):          # the grid starts at the initial time
+        tp = t0 + np.linspace(0, 1, 5)
+        for stochastic, delay, safe, vol in itertools.product((False, True), (False, True), (False, True), (None, 2.5, "obj")):
+            M = Model(species=["A", "B", "X", "Y", "Z"],
+                      reactions=[(["A"], ["B"], "massaction", {"k": 0.3})] if not delay else
+                      [(["A"], [], "massaction", {"k": 0.3}, "fixed", [], ["B"], {"delay": 0.2})],
+                      rules=[("assignment", {"equation": "X = 2*A + t"}, "repeated"), ("assignment", {"equation": "Y = 3*volume + B"}, "repeated"),
+                             ("assignment", {"equation": "Z = X + Y"}, "repeated")],
+                      initial_condition_dict={"A": 10, "B": 1})
+            v = vol
+            if vol == "obj":
+                v = Volume()
+                v.py_set_volume(2.5)
+            py_seed_random(5)
+            try:
+                df = py_simulate_model(tp, Model=M, stochastic=stochastic, delay=delay, safe=safe, volume=v)
+            except Exception as e:
+                problems.append("py_simulate_model(stochastic=%s, delay=%s, safe=%s, volume=%s) raised %s: %s" % (stochastic, delay, safe, vol, type(e).__name__, e))
+                continue
+            uses_volume = vol is not None and (stochastic or delay)
+            V = 2.5 if uses_volume else 1.0
+            want = {"A": 10.0, "B": 1.0, "X": 20.0 + t0, "Y": 3 * V + 1.0}
+            want["Z"] = want["X"] + want["Y"]
+            got = {s_: float(df[s_].iloc[0]) for s_ in want}
+            if any(abs(got[s_] - want[s_]) > 1e-9 for s_ in want):
+                problems.append("py_simulate_model(stochastic=%s, delay=%s, safe=%s, volume=%s) from t=%s: first row %s, initial condition with rules applied %s"
+                                % (stochastic, delay, safe, vol, t0, got, want))
+    return {"reproduced": bool(problems), "observed": problems[:3], "expected": "first row = initial condition with assignment rules applied"}
+
+
 def replay(spec):
     import warnings
     warnings.simplefilter("ignore")
+    if spec.get("kind") == "interface":
+        r = replay_first_row()
+        if r["reproduced"]:
+            return r
+        from . import C09
+        return C09.replay(spec)
     if "with_delay" not in spec:
         from . import ssa
         return ssa.replay(spec)          # obligations of the event loops (init / exit / record facets)
